@@ -149,7 +149,7 @@ def write_replay(prop, phase, runner, v):
                'expected': v.get('expected'), 'observed': v.get('observed')}
     blob = json.dumps(payload, sort_keys=True, default=str, ensure_ascii=False)
     sha = hashlib.sha256(blob.encode('utf-8', 'backslashreplace')).hexdigest()[:12]
-    d = os.path.join(HERE, 'replays', prop)
+    d = os.path.join(os.environ.get('VERIF_REPLAY_DIR') or os.path.join(HERE, 'replays'), prop)
     os.makedirs(d, exist_ok=True)
     path = os.path.join(d, sha + '.json')
     with open(path, 'w', encoding='utf-8', errors='backslashreplace') as f:
